@@ -115,7 +115,31 @@ template <class M> static bool blockDiagonal(const M& m, const std::vector<int>&
   return true;
 }
 
-void runOnce(const Args&) {}
+// Random(): the bundle draws each element the way the element group does.  The draws themselves cannot be compared (the order in which
+// the elements consume the generator is unspecified), their support can: every rotation block of a random bundle tangent must reach
+// angles beyond 2 rad within 400 draws (element-wise: uniform in [-pi, pi] resp. in the ball of radius pi; P(miss) < 1e-50) and never exceed pi
+void runOnce(const Args& a) {
+  const ref::Group& g = RG();
+  std::vector<double> mxStatic(g.nb(), 0.0), mxSet(g.nb(), 0.0), mxMap(g.nb(), 0.0);
+  srand((unsigned)(a.seed * 2654435761u + 17));
+  typename MonT::DataType buf;
+  for (int k = 0; k < 400; ++k) {
+    MonT t1 = MonT::Random(), t2; t2.setRandom(); Eigen::Map<MonT> t3(buf.data()); t3.setRandom();
+    const MonT* ts[3] = {&t1, &t2, nullptr}; std::vector<double>* mx[3] = {&mxStatic, &mxSet, &mxMap};
+    for (int w = 0; w < 3; ++w) for (int b = 0; b < g.nb(); ++b) {
+      const ref::Elem& e = g.el[b]; if (!e.rot) continue;
+      double th = 0; for (int q = 0; q < (e.rot == 3 ? 3 : 1); ++q) { double c = w < 2 ? (double)ts[w]->coeffs()(g.dofOff[b] + e.rotIdx[q]) : (double)buf(g.dofOff[b] + e.rotIdx[q]); th += c * c; }
+      (*mx[w])[b] = std::max((*mx[w])[b], std::sqrt(th));
+    }
+  }
+  const char* nm[3] = {"Random()", "setRandom()", "Map::setRandom()"}; std::vector<double>* mx[3] = {&mxStatic, &mxSet, &mxMap};
+  for (int w = 0; w < 3; ++w) for (int b = 0; b < g.nb(); ++b) {
+    if (!g.el[b].rot) continue;
+    double m = (*mx[w])[b]; bool ok = m > 2.0 && m <= 3.14159265358979323846 * (1 + 1e-6);
+    LOG.cell(std::string("tangent-random-support/") + nm[w] + "/" + GN() + "/elem" + std::to_string(b) + ":" + g.el[b].name, ok ? 0 : 1);
+    if (!ok) LOG.viol(std::string("tangent-random-not-element-wise/") + nm[w] + "/" + GN() + "/elem" + std::to_string(b) + ":" + g.el[b].name, m, J().d("largest_rotation_angle_in_400_draws", m).str());
+  }
+}
 
 void runCase(long long i, Prng& r, const Args& a) {
   const ref::Group& g = RG();
